@@ -31,6 +31,20 @@ type w11S struct {
 }
 
 func (w *w11S) fail(clause, sig, format string, args ...any) {
+	// A zero-weight waiter that the specification admits while it is parked (cancellation
+	// pending) changes neither cur nor any return value, so a missed admission of it cannot be
+	// observed at that step; it surfaces later as a divergence of some other kind (the waiter
+	// still blocks the FIFO). Such a failure is classified as what it is: the zero-weight waiter
+	// was not woken.
+	if clause != "panic" {
+		for _, t := range w.tasks {
+			if t.n == 0 && t.mGranted && t.state == w11Limbo {
+				w.r.Fail(w11Prop, "sem.lost-wakeup", "zero-weight-waiter", "parked zero-weight waiter %s was at the head and fitted but was evidently not admitted; seen as %s/%s: %s",
+					t.name, clause, sig, fmt.Sprintf(format, args...))
+				return
+			}
+		}
+	}
 	w.r.Fail(w11Prop, clause, sig, format, args...)
 }
 
@@ -346,7 +360,7 @@ func w11SemEpisode(b *w11Base, ep int) {
 		hookOn = cancelOn && c.Intn(3, "s.hook_on") != 0
 		sizeOn = c.Intn(2, "s.setsize_on") == 1
 		forceOn = c.Intn(3, "s.force_on") == 2
-		zeroOn = c.Intn(8, "s.zero_on") == 7
+		zeroOn = b.zeroRun
 		bigOn = cancelOn && c.Intn(3, "s.big_on") == 2
 	}
 	b.hooks["semaphore.acquire.cancelled"] = hookOn
